@@ -67,19 +67,25 @@ where
             })),
         };
         if let Some(closing_time) = close_at {
-            let s1 = s.clone();
+            // The timeout thread shares the market itself rather than a broker: dropping a broker
+            // counts as a worker leaving, which made `is_closed` true while workers were running.
+            let market = Arc::clone(&s.market);
             std::thread::Builder::new()
                 .name("timeout".to_owned())
                 .spawn(move || loop {
-                    let mut market = s1.market.lock();
-                    let now = SystemTime::now();
-                    if closing_time < now {
-                        log::debug!("Reached timeout, triggering shutdown");
-                        market.open = false;
+                    {
+                        let mut market = market.lock();
+                        let now = SystemTime::now();
+                        if closing_time < now {
+                            log::debug!("Reached timeout, triggering shutdown");
+                            market.open = false;
+                        }
+                        if !market.open {
+                            break;
+                        }
                     }
-                    if !market.open {
-                        break;
-                    }
+                    // Sleep without holding the lock, so that an unexpired timeout does not stall
+                    // the workers.
                     sleep(Duration::from_secs(1));
                 })
                 .unwrap();
